@@ -383,6 +383,7 @@ func c11Explore(c *ev.Ctx, k c11Case, bound, dev int) {
 		return s
 	}, func(*sched.Scheduler) bool { return c.Violations() < 40 }, func() bool { return c.Expired("C11 exploration") })
 	c.AddCov("states", int64(execs))
+	c.AddCov("traces_validated_against_impl", int64(execs))
 	c.Outcome(fmt.Sprintf("threads=%d/distinct-result-vectors=%d/sequential-outcomes=%d", len(k.Ops), len(nOut), len(seq)))
 	c.ShardInfo(map[string]any{"scenario": fmt.Sprintf("noup=%v locked=%v %v", k.NoUp, k.Locked, k.Ops), "preemption_bound": bound, "deviation_bound": dev, "executions": execs, "complete": complete, "result_vectors": len(nOut)})
 	if !complete {
